@@ -12,17 +12,37 @@ func (p Preempt) Choose(step int, cands []Choice, cur int) int {
 	if !ok {
 		return Default{}.Choose(step, cands, cur)
 	}
+	return pickOther(cands, cur, c)
+}
+
+// pickOther returns the index of the c-th candidate other than cur, counting working goroutines
+// first, then goroutines parked in a select (idle workers), then timers - so that small choice
+// numbers address the actors that matter.
+func pickOther(cands []Choice, cur int, c int) int {
 	if c < 0 {
 		c = -c
 	}
-	if cur < 0 || len(cands) == 1 {
-		return c % len(cands)
+	var order []int
+	for pass := 0; pass < 3; pass++ {
+		for i, cd := range cands {
+			if i == cur {
+				continue
+			}
+			k := 0
+			if cd.Timer {
+				k = 2
+			} else if cd.Poller {
+				k = 1
+			}
+			if k == pass {
+				order = append(order, i)
+			}
+		}
 	}
-	i := c % (len(cands) - 1)
-	if i >= cur {
-		i++
+	if len(order) == 0 {
+		return cur
 	}
-	return i
+	return order[c%len(order)]
 }
 
 func (p Preempt) Order(step, n int) []int { return Default{}.Order(step, n) }
@@ -51,7 +71,7 @@ func (t *Tape) Choose(step int, cands []Choice, cur int) int {
 		return Default{}.Choose(step, cands, cur)
 	}
 	c, _ := t.next()
-	return int(c) % len(cands)
+	return pickOther(cands, cur, int(c))
 }
 
 func (t *Tape) Order(step, n int) []int {
